@@ -3039,10 +3039,6 @@ class Retry(Runner, Delegator):
 
                 self.logger.info("[%s] has timed out. Retrying in [%.2f] seconds.", repr(self.delegate), sleep_time)
                 await asyncio.sleep(sleep_time)
-            except elasticsearch.exceptions.TransportError as e:
-                if last_attempt or not retry_on_timeout:
-                    raise e
-
     async def __aexit__(self, exc_type, exc_val, exc_tb):
         return await self.delegate.__aexit__(exc_type, exc_val, exc_tb)
 
